@@ -27,6 +27,11 @@ def correspond(rep, prop, streams, oracle=None, nontrivial=None, project=None, g
     if not BuildState.harness_ok:
         return None, None
     for name, mode, args in streams:
+        if mode == "gather" and not BuildState.show_ok:
+            # the overlay file of cmd/wire does not compile against the current tree: this tie is broken, the other parts still run
+            disagreements.append({"stream": name, "request": None,
+                                  "why": "the overlay harness of cmd/wire does not compile against the current tree: " + BuildState.show_log[-600:]})
+            continue
         res = planner.run_stream(mode, args)
         n = len(res["reqs"])
         st = {"cases": n, "mode": mode, "args": [str(a) for a in args], "disagree": 0, "oracle_fail": 0}
